@@ -3,8 +3,8 @@
    Print Assumptions follows every theorem.   *)
 
 From Coq Require Import List NArith Bool Sorting Permutation.
-From Ice Require Import Base Spec Chunk Postings Enumerator IntCoder Run MergePostings.
-From IceProofs Require MergeAlgebra_Proofs Docnums_Proofs Sort_Proofs Enumerator_Proofs MergePostings_Proofs.
+From Ice Require Import Base Spec Chunk Postings Enumerator IntCoder Run MergePostings DocValues DvWriter Stored StoredWriter.
+From IceProofs Require MergeAlgebra_Proofs Docnums_Proofs Sort_Proofs Enumerator_Proofs MergePostings_Proofs DvWriter_Proofs StoredWriter_Proofs.
 Import ListNotations.
 Open Scope N_scope.
 
@@ -291,3 +291,42 @@ Example ex_merge_field_spec :
     end.
 Proof. exact @MergePostings_Proofs.ex_merge_field_spec. Qed.
 Print Assumptions ex_merge_field_spec.
+
+(* R-merge for doc values *)
+Theorem merge_doc_values_correct :
+    forall (f : bytes) (ins : list (ASeg * list N)) (sel : list (option bool)),
+    let M := fst (merge_spec ins) in
+    Forall2 (fun (p : ASeg * list N) (s : option bool) => s <> Some true -> dv_entries (fst p) f = []) ins
+    sel ->
+    0 < o_count M ->
+    o_count M <= docDropped ->
+    merge_dv (o_count M)
+    (map DvWriter_Proofs.in_chunks
+    (DvWriter_Proofs.sel_inputs f (combine ins (merge_docnums ins 0)) sel)) =
+    Ok
+    (if existsb DvWriter_Proofs.is_reader sel
+    then Some (dv_chunks (DvWriter_Proofs.nch_of (o_count M)) (dv_entries M f))
+    else None).
+Proof. exact @DvWriter_Proofs.merge_dv_correct. Qed.
+Print Assumptions merge_doc_values_correct.
+
+(* R-merge for stored fields: both paths of the merger (byte copy of whole records when field lists agree and nothing is dropped; re-encoding through visitDocument otherwise), mixed freely over the inputs, produce exactly the stored blocks and offsets of the surviving documents, also when an output block ends inside a source block *)
+Theorem merge_stored_correct :
+    forall ins : list (ASeg * list N),
+    Forall (fun p : ASeg * list N => StoredWriter_Proofs.wf_seg (fst p)) ins ->
+    let Mg := fst (merge_spec ins) in
+    merge_stored (map StoredWriter_Proofs.seg_input ins) (o_count Mg) =
+    Ok (layout_of (StoredWriter_Proofs.seg_docs Mg)).
+Proof. exact @StoredWriter_Proofs.merge_stored_correct. Qed.
+Print Assumptions merge_stored_correct.
+
+(* the byte-copy path emits the same records as the re-encode path *)
+Theorem copy_correct :
+    forall (A : ASeg) (n : N) (offs : list N) (c : docCoder),
+    StoredWriter_Proofs.wf_seg A ->
+    copy_stored_docs (StoredWriter_Proofs.seg_input (A, [])) n offs c =
+    (do (_, offs1, c1) <-
+    merge_reencode (StoredWriter_Proofs.seg_input (A, [])) (as_fields A) (n, offs, c); 
+    Ok (offs1, c1)).
+Proof. exact @StoredWriter_Proofs.copy_correct. Qed.
+Print Assumptions copy_correct.
